@@ -123,6 +123,15 @@ def h_not_disjoint(axis):
         fail('concat:not-refused', f"ids {a0.ids(axis)} + {ids}", axis=axis)
     elif not isinstance(e, X.DisjointIDError):
         fail('concat:wrong-error', repr(e)[:100], axis=axis)
+    # the very same table object twice (its ids cannot be disjoint from themselves), through both entry points
+    import sx.env as env
+    for label, fn in (('method', lambda: t0.concat([t0], axis=axis)), ('wrapper', lambda: env.module('biom').concat([t0, t0], axis=axis)),
+                      ('wrapper-later', lambda: env.module('biom').concat([t0, t3x, t0], axis=axis))):
+        if label == 'wrapper-later':
+            t3x, _ = operand(axis, ['p9', 'q9'], list(a0.ids(inv)), 'u', False)
+        e = raises(fn)
+        if e is None or not isinstance(e, X.DisjointIDError):
+            fail('concat:same-object-twice-not-refused', f"{label}: {e!r}"[:120], axis=axis)
     # between later operands only
     t3, a3 = operand(axis, ['p', 'q'], list(a0.ids(inv)), 'y', False)
     t4, a4 = operand(axis, ['q'], list(a0.ids(inv)), 'z', False)
